@@ -222,6 +222,10 @@ def rule_dispatch(ctx: Ctx) -> None:
             node = next(i for ts, _r, i in branches if sub in ts)
             ctx.add("2-dispatch", fn, node, ok, f"`{sub}` is tested before its superclass `{sup}`" if ok else f"`{sup}` is tested before its subclass `{sub}`: {sub} values are keyed as plain {sup}", key=f"{sub}<{sup}")
     ctx.floor("2-dispatch", n2, 3)
+    for sub, sup in SUBCLASS_OF.items():
+        if sub in ORDERED and sup in UNORDERED and sup in order:
+            ctx.add("2-dispatch", fn, fn.node, sub in order, f"order-significant `{sub}` has its own branch (it is a subclass of the sorted `{sup}`)" if sub in order else
+                    f"`{sub}` has no branch of its own and falls into the `{sup}` branch, whose entries are sorted: two {sub} values that differ only in order get the same key", key=f"own-branch {sub}")
 
 
 def rule_order_and_recursion(ctx: Ctx) -> None:  # noqa: C901, PLR0912
@@ -454,6 +458,7 @@ def check(ctx: Ctx) -> None:
 
 F = "pipefunc/cache.py"
 MUTANTS = [
+    Mutant("ordereddict-branch-removed", F, "    if isinstance(obj, collections.OrderedDict):\n        return (m, tp, _hashable_mapping(obj, fallback_to_pickle))\n", "", ("C15.2-dispatch",), why="round-2 seed C15/4"),
     Mutant("drop-tp-list", F, "        return (m, tp, _hashable_iterable(obj, fallback_to_pickle))\n    if isinstance(obj, collections.deque)",
            "        return (m, _hashable_iterable(obj, fallback_to_pickle))\n    if isinstance(obj, collections.deque)", ("C15.1-tagged",)),
     Mutant("tp-by-name", F, "tp: type | str = type(obj)", "tp: type | str = type(obj).__name__", ("C15.1-tagged",)),
